@@ -264,6 +264,10 @@ func (p *Prog) panicSitesIn(inScope map[string]bool, anyClass bool) []PanicSite 
 				if s := p.optionalDeref(fn, in, inScope); s != nil {
 					out = append(out, *s)
 				}
+				// D7: a number decoded from input used as a slice bound, index or allocation size without a dominating comparison
+				if s := p.inputNumberAsBound(fn, in); s != nil {
+					out = append(out, *s)
+				}
 			}
 		}
 	}
@@ -449,6 +453,18 @@ func (p *Prog) discardedErrDeref(fn *ssa.Function, call *ssa.Call) *PanicSite {
 	for _, u := range derefUses(first) {
 		if !nonNilAt(first, u.Block()) {
 			return &PanicSite{Detector: "D3.discarded-error-deref", Fn: fn, Pos: call.Pos(), Expr: AccessPath(call, 0), Detail: "error result ignored and the other result is dereferenced at " + p.Pos(u.Pos())}
+		}
+	}
+	// the result may first be merged with another source (a cache hit, a default) and dereferenced afterwards
+	for _, ref := range *first.Referrers() {
+		phi, ok := ref.(*ssa.Phi)
+		if !ok {
+			continue
+		}
+		for _, u := range derefUses(phi) {
+			if !nonNilAt(phi, u.Block()) {
+				return &PanicSite{Detector: "D3.discarded-error-deref", Fn: fn, Pos: call.Pos(), Expr: AccessPath(call, 0), Detail: "error result ignored and the other result is dereferenced (after a merge) at " + p.Pos(u.Pos())}
+			}
 		}
 	}
 	return nil
@@ -720,4 +736,188 @@ func (p *Prog) nilNilResultDeref(fn *ssa.Function, call *ssa.Call) *PanicSite {
 		}
 	}
 	return nil
+}
+
+// inputNumberAsBound (D7): the operand of a slice expression (low/high/max), an index expression or a make() size is —
+// through conversions and arithmetic with constants — a numeric struct field that is decoded from input (json or protobuf
+// struct tag; for pointer fields, its dereference), and no dominating branch compares that number with anything.
+func (p *Prog) inputNumberAsBound(fn *ssa.Function, in ssa.Instruction) *PanicSite {
+	var ops []ssa.Value
+	what := ""
+	switch x := in.(type) {
+	case *ssa.Slice:
+		ops, what = []ssa.Value{x.Low, x.High, x.Max}, "slice bound"
+	case *ssa.IndexAddr:
+		if _, isMap := x.X.Type().Underlying().(*types.Map); !isMap {
+			ops, what = []ssa.Value{x.Index}, "index"
+		}
+	case *ssa.Index:
+		ops, what = []ssa.Value{x.Index}, "index"
+	case *ssa.MakeSlice:
+		ops, what = []ssa.Value{x.Len, x.Cap}, "allocation size"
+	default:
+		return nil
+	}
+	for _, op := range ops {
+		if op == nil {
+			continue
+		}
+		src := inputNumberSource(op, 0)
+		if src == nil {
+			continue
+		}
+		if comparedBefore(src, in.Block()) {
+			continue
+		}
+		return &PanicSite{Detector: "D7.input-number-as-bound", Fn: fn, Pos: in.Pos(), Expr: AccessPath(op, 0), Detail: what + " " + AccessPath(op, 0) + " comes from a decoded input field and is not compared with anything on the way here (negative or oversized values panic)"}
+	}
+	return nil
+}
+
+func inputNumberSource(v ssa.Value, depth int) ssa.Value {
+	if depth > 6 || v == nil {
+		return nil
+	}
+	switch x := v.(type) {
+	case *ssa.Convert:
+		return inputNumberSource(x.X, depth+1)
+	case *ssa.ChangeType:
+		return inputNumberSource(x.X, depth+1)
+	case *ssa.BinOp:
+		if _, isC := x.Y.(*ssa.Const); isC {
+			return inputNumberSource(x.X, depth+1)
+		}
+		if _, isC := x.X.(*ssa.Const); isC {
+			return inputNumberSource(x.Y, depth+1)
+		}
+	case *ssa.UnOp:
+		if x.Op != token.MUL {
+			return nil
+		}
+		// load of a field, or deref of a loaded pointer field
+		inner := x.X
+		if u2, ok := inner.(*ssa.UnOp); ok && u2.Op == token.MUL {
+			inner = u2.X
+		}
+		fa, ok := inner.(*ssa.FieldAddr)
+		if !ok {
+			return nil
+		}
+		fv := structField(fa.X.Type(), fa.Field)
+		if fv == nil {
+			return nil
+		}
+		t := fv.Type()
+		if pt, ok := t.Underlying().(*types.Pointer); ok {
+			t = pt.Elem()
+		}
+		b, ok := t.Underlying().(*types.Basic)
+		if !ok || b.Info()&types.IsInteger == 0 {
+			return nil
+		}
+		tag := reflect.StructTag(structFieldTag(fa.X.Type(), fa.Field))
+		if tag.Get("json") == "" && tag.Get("protobuf") == "" {
+			return nil
+		}
+		return x
+	case *ssa.Field:
+		fv := structField(x.X.Type(), x.Field)
+		if fv == nil {
+			return nil
+		}
+		b, ok := fv.Type().Underlying().(*types.Basic)
+		if !ok || b.Info()&types.IsInteger == 0 {
+			return nil
+		}
+		tag := reflect.StructTag(structFieldTag(x.X.Type(), x.Field))
+		if tag.Get("json") == "" && tag.Get("protobuf") == "" {
+			return nil
+		}
+		return x
+	}
+	return nil
+}
+
+// comparedBefore: the dominating branches establish both a lower bound (src >= 0-ish; implicit for unsigned types) and
+// an upper bound (src < or <= something) for src (another load of the same field expression counts as src).
+func comparedBefore(src ssa.Value, blk *ssa.BasicBlock) bool {
+	lower, upper := false, false
+	if b, ok := src.Type().Underlying().(*types.Basic); ok && b.Info()&types.IsUnsigned != 0 {
+		lower = true
+	}
+	isSrc := func(o ssa.Value) bool {
+		o2 := inputNumberSource(o, 0)
+		return o2 != nil && (o2 == src || SameExpr(o2, src, 5))
+	}
+	for _, e := range edgeFacts(blk) {
+		i := ifOf(e.From)
+		if i == nil {
+			continue
+		}
+		atom, neg := condAtom(i.Cond)
+		bin, ok := atom.(*ssa.BinOp)
+		if !ok {
+			continue
+		}
+		truth := (e.Succ == 0) != neg // the comparison's value on this edge
+		op := bin.Op
+		var srcLeft bool
+		switch {
+		case isSrc(bin.X):
+			srcLeft = true
+		case isSrc(bin.Y):
+			srcLeft = false
+		default:
+			continue
+		}
+		// normalise to "src OP other" being true
+		if !srcLeft {
+			switch op {
+			case token.LSS:
+				op = token.GTR
+			case token.LEQ:
+				op = token.GEQ
+			case token.GTR:
+				op = token.LSS
+			case token.GEQ:
+				op = token.LEQ
+			}
+		}
+		if !truth {
+			switch op {
+			case token.LSS:
+				op = token.GEQ
+			case token.LEQ:
+				op = token.GTR
+			case token.GTR:
+				op = token.LEQ
+			case token.GEQ:
+				op = token.LSS
+			case token.EQL:
+				op = token.NEQ
+			case token.NEQ:
+				op = token.EQL
+			}
+		}
+		other := bin.Y
+		if !srcLeft {
+			other = bin.X
+		}
+		switch op {
+		case token.LSS, token.LEQ:
+			upper = true
+		case token.GTR, token.GEQ:
+			if c, isC := ConstInt(other); isC && c >= -1 {
+				lower = true
+			} else if !isC {
+				// compared against a length/count: a lower bound of at least that non-negative quantity
+				if _, isLen := stripConv(other).(*ssa.Call); isLen {
+					lower = true
+				}
+			}
+		case token.EQL:
+			lower, upper = true, true
+		}
+	}
+	return lower && upper
 }
